@@ -17,11 +17,8 @@ def describe(e):
 
 
 def ok_validate(schema, value):
-    import d42
-    try:
-        return not d42.validate(schema, value).has_errors()
-    except Exception:
-        return False
+    from .common import accepts
+    return accepts(schema, value)
 
 
 def observe(real, s, v_abs, v_real, nprobes, rng):
